@@ -64,11 +64,16 @@ func (v *Vue) evalSlot(ctx VueContext, node *html.Node, slotScope *SlotScope) ([
 	// Get slot props that the slot binds
 	slotProps := make(map[string]any)
 	for _, attr := range node.Attr {
-		if attr.Key == "" || attr.Key[0] != ':' {
+		// Extract the binding name (:name, or v-bind:name in the long spelling)
+		var propName string
+		switch {
+		case strings.HasPrefix(attr.Key, ":"):
+			propName = attr.Key[1:]
+		case strings.HasPrefix(attr.Key, "v-bind:"):
+			propName = attr.Key[7:]
+		default:
 			continue
 		}
-		// Extract the binding name (without the colon)
-		propName := attr.Key[1:]
 
 		// Evaluate the binding value
 		val, err := v.exprEval.Eval(attr.Val, v.exprEnv(ctx))
